@@ -22,6 +22,9 @@ def main():
         if fn is None and spec["q"] in ("opcode", "step_error"):
             from mirsym import queries_interp as QI
             fn = getattr(QI, "q_" + spec["q"])
+        if fn is None and spec["q"] in ("decoders",):
+            from mirsym import queries_total as QTT
+            fn = getattr(QTT, "q_" + spec["q"])
         if fn is None:
             from mirsym import queries_tmpl as QT
             fn = getattr(QT, "q_" + spec["q"])
